@@ -42,7 +42,7 @@ def install():
 
 
 def same_node(a, b):
-    if isinstance(b, (list, dict)):
+    if isinstance(b, (list, dict)) or not isinstance(b, (str, int, float, bool, type(None))):
         return a is b
     return type(a) is type(b) and a == b
 
@@ -115,12 +115,21 @@ def check_match(ctx, case, doc, m, cls_cell):
     return None
 
 
-def check_case(ctx, text, doc, cls):
+def check_case(ctx, text, doc, cls, exotic_seed=None):
+    import random
+
     import jsonpath
     from rt.jp_oracle import equivalent_envs
 
     ctx.evaluation()
     case = {"text": text, "doc": doc, "class": cls}
+    plain_doc = doc
+    if exotic_seed is not None:
+        # the same JSON value held in other Mapping/Sequence implementations and subclasses of str/int/float (keys too);
+        # every law is about the document as given, so the laws are checked on that object
+        doc = gen.exotic(doc, random.Random(exotic_seed), p=0.5)
+        case["exotic_seed"] = exotic_seed
+        ctx.count("documents_of_other_container_and_scalar_types")
     hooks.STATE.h2_violations.clear()
     env = jsonpath.DEFAULT_ENV
     if cls == "random" and ctx.rng.random() < 0.2:
@@ -131,7 +140,7 @@ def check_case(ctx, text, doc, cls):
         ctx.count("query_raised")
         return
     ms = o.value
-    ctx.case(h(text, canon(doc)), any(m.parts for m in ms))
+    ctx.case(h(text, canon(plain_doc), exotic_seed), any(m.parts for m in ms))
     sel = ms if len(ms) <= 40 else ms[:20] + ctx.rng.sample(ms[20:], 20)
     for m in sel:
         classes = {gen.name_class(p) if isinstance(p, str) else "index" for p in m.parts} or {"root"}
@@ -146,13 +155,13 @@ def check_case(ctx, text, doc, cls):
     # equal paths <=> same node, over all matches of the result
     by_path = {}
     for m in ms:
-        by_path.setdefault(m.path, set()).add(tuple((type(p).__name__, p) for p in m.parts))
+        by_path.setdefault(m.path, set()).add(tuple(("name" if isinstance(p, str) else "index", p) for p in m.parts))
     if any(len(v) > 1 for v in by_path.values()):
         ctx.violation("two-nodes-share-a-path", case, {"text": text})
         return
     by_parts = {}
     for m in ms:
-        by_parts.setdefault(tuple((type(p).__name__, p) for p in m.parts), set()).add(m.path)
+        by_parts.setdefault(tuple(("name" if isinstance(p, str) else "index", p) for p in m.parts), set()).add(m.path)
     if any(len(v) > 1 for v in by_parts.values()):
         ctx.violation("one-node-has-two-paths", case, {"text": text})
         return
@@ -244,7 +253,7 @@ def run(spec, ctx):
             else:
                 fg = gen.FilterGen(r, names[:4], max_depth=1)
                 ast = ["q", "$", gen.gen_segments(r, names, max_segs=3, filters=lambda: fg.logical())]
-            check_case(ctx, Renderer(r, blanks=0.1).top(ast), doc, "random")
+            check_case(ctx, Renderer(r, blanks=0.1).top(ast), doc, "random", exotic_seed=r.randrange(10 ** 6) if r.random() < 0.15 else None)
     ctx.count("H2_matches_checked", hooks.STATE.h2_checked)
 
 
@@ -267,4 +276,4 @@ def replay(case, ctx):
     if "w0_test" in case:
         run_w0(ctx, only=case["w0_test"])
         return
-    check_case(ctx, case["text"], case["doc"], case.get("class", "replay"))
+    check_case(ctx, case["text"], case["doc"], case.get("class", "replay"), exotic_seed=case.get("exotic_seed"))
